@@ -154,6 +154,11 @@ func runC04(c *report.Ctx) {
 	for _, call := range an.CallsTo(rel, "L/rapi/rendering.NewInvokeRenderer") {
 		a := call.Common().Args
 		okReq := isFreeVarLoad(a[1], "invokeRequest") && isFreeVarLoad(a[2], "requestBuffer")
+		if !okReq {
+			// under whatever name they were captured: the values are doInvoke's own request and buffer parameters
+			p1, p2 := capturedParam(rel, a[1]), capturedParam(rel, a[2])
+			okReq = p1 != nil && p2 != nil && p1.Name() == "invokeRequest" && p2.Name() == "requestBuffer" && an.FuncName(p1.Parent()) == "L/rapid.doInvoke" && p2.Parent() == p1.Parent()
+		}
 		c.Check("R-WIRE", rname+"/renderer-from-this-request", "the event rendered to runtime and extensions is built from this invocation's request record and buffer", okReq, an.InstrPos(call), 2, "NewInvokeRenderer(ctx, invokeRequest, requestBuffer, ...): %v", okReq)
 	}
 	for _, call := range an.CallsTo(rel, "L/rapi/rendering.EventRenderingService.SetRenderer") {
@@ -512,4 +517,63 @@ func recordIsPrivate(rec *ssa.Alloc) bool {
 	}
 	visit(rec, 0)
 	return ok
+}
+
+// capturedParam follows a value read from a captured variable back to the parameter it holds: v is a load of a free
+// variable of f whose cell, in the enclosing function(s), is stored to exactly once, with a parameter (possibly
+// through further levels of capture). The variable's own name does not matter.
+func capturedParam(f *ssa.Function, v ssa.Value) *ssa.Parameter {
+	for depth := 0; depth < 6 && f != nil; depth++ {
+		if p, ok := v.(*ssa.Parameter); ok {
+			return p
+		}
+		u, ok := v.(*ssa.UnOp)
+		if !ok || u.Op != token.MUL {
+			return nil
+		}
+		var cell ssa.Value = u.X
+		for {
+			fv, isFV := cell.(*ssa.FreeVar)
+			if !isFV {
+				break
+			}
+			idx := -1
+			for i, x := range f.FreeVars {
+				if x == fv {
+					idx = i
+				}
+			}
+			par := f.Parent()
+			if idx < 0 || par == nil {
+				return nil
+			}
+			var bound ssa.Value
+			an.AllInstrs(par, func(in ssa.Instruction) {
+				if mc, isMC := in.(*ssa.MakeClosure); isMC && mc.Fn == ssa.Value(f) && idx < len(mc.Bindings) {
+					bound = mc.Bindings[idx]
+				}
+			})
+			if bound == nil {
+				return nil
+			}
+			cell, f = bound, par
+		}
+		a, isA := cell.(*ssa.Alloc)
+		if !isA {
+			return nil
+		}
+		var val ssa.Value
+		n := 0
+		for _, ref := range *a.Referrers() {
+			if st, isSt := ref.(*ssa.Store); isSt && st.Addr == ssa.Value(a) {
+				n++
+				val = st.Val
+			}
+		}
+		if n != 1 {
+			return nil
+		}
+		v = val
+	}
+	return nil
 }
